@@ -856,7 +856,10 @@ reprocess:
 			goto reprocess;
 		}
 		case 'l':
-			fmt[fmt_pos++] = *format;
+			/* room for the conversion and the terminator */
+			if (fmt_pos < MINI_FORMAT_STR_LEN - 2) {
+				fmt[fmt_pos++] = *format;
+			}
 			format++;
 			type_long = QB_TRUE;
 			if (*format == 'l') {
@@ -865,7 +868,10 @@ reprocess:
 			}
 			goto reprocess;
 		case 'z':
-			fmt[fmt_pos++] = *format;
+			/* room for the conversion and the terminator */
+			if (fmt_pos < MINI_FORMAT_STR_LEN - 2) {
+				fmt[fmt_pos++] = *format;
+			}
 			format++;
 			if (sizeof(size_t) == sizeof(long long)) {
 				type_long = QB_FALSE;
@@ -876,7 +882,10 @@ reprocess:
 			}
 			goto reprocess;
 		case 't':
-			fmt[fmt_pos++] = *format;
+			/* room for the conversion and the terminator */
+			if (fmt_pos < MINI_FORMAT_STR_LEN - 2) {
+				fmt[fmt_pos++] = *format;
+			}
 			format++;
 			if (sizeof(ptrdiff_t) == sizeof(long long)) {
 				type_longlong = QB_TRUE;
@@ -885,7 +894,10 @@ reprocess:
 			}
 			goto reprocess;
 		case 'j':
-			fmt[fmt_pos++] = *format;
+			/* room for the conversion and the terminator */
+			if (fmt_pos < MINI_FORMAT_STR_LEN - 2) {
+				fmt[fmt_pos++] = *format;
+			}
 			format++;
 			if (sizeof(intmax_t) == sizeof(long long)) {
 				type_longlong = QB_TRUE;
